@@ -123,22 +123,124 @@ func hasFSCall(nodes []ast.Node, filePkg string) bool {
 type ins struct {
 	off  int
 	text string
+	del  int // bytes replaced at off (0: pure insertion)
 }
+
+// spoolSrc is added to package vhook of the tree under test (through the
+// overlay, tag verif): a drop-in for sync.Pool whose Get / Put ask the
+// installed controller first. The controller takes part only if it has the
+// DynPool methods (the simulator's kernel has), so every sync.Pool of
+// lib/query and lib/value - also one that a change adds, and also a Put or Get
+// that a change adds without a hook line - is served by the simulated
+// allocator, whatever the shape of the code around it.
+const spoolSrc = `//go:build verif
+
+package vhook
+
+import (
+	"sync"
+	"sync/atomic"
+)
+
+type dynPooler interface {
+	DynPoolGet(id uint64) (v interface{}, handled bool)
+	DynPoolPut(id uint64, v interface{}) bool
+}
+
+var spoolSeq atomic.Uint64
+
+type SPool struct {
+	New  func() interface{}
+	real sync.Pool
+	id   atomic.Uint64
+}
+
+func (p *SPool) ident() uint64 {
+	id := p.id.Load()
+	if id == 0 {
+		id = spoolSeq.Add(1)
+		if !p.id.CompareAndSwap(0, id) {
+			id = p.id.Load()
+		}
+	}
+	return id
+}
+
+func (p *SPool) Get() interface{} {
+	if c := ctl(); c != nil {
+		if d, ok := c.(dynPooler); ok {
+			if v, handled := d.DynPoolGet(p.ident()); handled {
+				if v != nil {
+					return v
+				}
+				if p.New != nil {
+					return p.New()
+				}
+				return nil
+			}
+		}
+	}
+	if v := p.real.Get(); v != nil {
+		return v
+	}
+	if p.New != nil {
+		return p.New()
+	}
+	return nil
+}
+
+func (p *SPool) Put(v interface{}) {
+	if c := ctl(); c != nil {
+		if d, ok := c.(dynPooler); ok {
+			if d.DynPoolPut(p.ident(), v) {
+				return
+			}
+		}
+	}
+	p.real.Put(v)
+}
+`
 
 func main() {
 	out := flag.String("out", "", "output directory")
 	goOnly := flag.String("goonly", "", "comma-separated files that only get a scheduling point at the top of every `go func() {...}()` literal")
+	simPool := flag.String("simpool", "", "comma-separated files in which every sync.Pool becomes a vhook.SPool (served by the simulated allocator); they are processed in addition to the other lists")
+	vhookDir := flag.String("vhookdir", "", "directory of package vhook of the tree under test (gets spool_verif.go through the overlay when -simpool is used)")
 	flag.Parse()
+	simPoolSet := map[string]bool{}
+	for _, g := range strings.Split(*simPool, ",") {
+		if g != "" {
+			simPoolSet[g] = true
+		}
+	}
 	goOnlySet := map[string]bool{}
 	files := flag.Args()
+	full := map[string]bool{}
+	for _, f := range files {
+		full[f] = true
+	}
 	for _, g := range strings.Split(*goOnly, ",") {
-		if g != "" {
+		if g != "" && !full[g] && !goOnlySet[g] {
 			goOnlySet[g] = true
 			files = append(files, g)
 		}
 	}
+	for g := range simPoolSet {
+		known := false
+		for _, f := range files {
+			if f == g {
+				known = true
+			}
+		}
+		if !known {
+			goOnlySet[g] = true // no statement-level yields there
+			files = append(files, g)
+		}
+	}
+	sort.Strings(files)
 	overlay := map[string]string{}
 	total := 0
+	pools := 0
 	for i, path := range files {
 		src, err := os.ReadFile(path)
 		if err != nil {
@@ -165,10 +267,27 @@ func main() {
 				hasVhook = true
 			}
 		}
-		if f.Name.Name == "file" && filePkg == "file" {
-			// inside package file the identifier `file` is the go-file import as well
-		}
 		var list []ins
+		syncUsedElsewhere := false
+		poolsHere := 0
+		if simPoolSet[path] {
+			ast.Inspect(f, func(n ast.Node) bool {
+				se, ok := n.(*ast.SelectorExpr)
+				if !ok {
+					return true
+				}
+				if id, ok := se.X.(*ast.Ident); ok && id.Name == "sync" {
+					if se.Sel.Name == "Pool" {
+						pos := fset.Position(se.Pos())
+						list = append(list, ins{off: pos.Offset, del: len("sync.Pool"), text: "vhook.SPool"})
+						poolsHere++
+					} else {
+						syncUsedElsewhere = true
+					}
+				}
+				return true
+			})
+		}
 		base := filepath.Base(path)
 		visit := func(stmts []ast.Stmt) {
 			for j, s := range stmts {
@@ -225,8 +344,12 @@ func main() {
 		sort.Slice(list, func(a, b int) bool { return list[a].off > list[b].off })
 		b := src
 		for _, in := range list {
-			b = append(b[:in.off:in.off], append([]byte(in.text), b[in.off:]...)...)
+			b = append(b[:in.off:in.off], append([]byte(in.text), b[in.off+in.del:]...)...)
 		}
+		if poolsHere > 0 && !syncUsedElsewhere {
+			b = append(b, []byte("\nvar _ sync.Locker\n")...)
+		}
+		pools += poolsHere
 		if !hasVhook {
 			// add the import right after the package clause, on the same line
 			end := fset.Position(f.Name.End()).Offset
@@ -241,9 +364,18 @@ func main() {
 		overlay[abs] = dst
 		total += len(list)
 	}
+	if pools > 0 && *vhookDir != "" {
+		dst := filepath.Join(*out, "spool_verif.go")
+		if err := os.WriteFile(dst, []byte(spoolSrc), 0644); err != nil {
+			fmt.Fprintln(os.Stderr, err)
+			os.Exit(2)
+		}
+		abs, _ := filepath.Abs(filepath.Join(*vhookDir, "spool_verif.go"))
+		overlay[abs] = dst
+	}
 	js, _ := json.MarshalIndent(map[string]interface{}{"Replace": overlay}, "", " ")
 	fmt.Println(string(js))
-	fmt.Fprintf(os.Stderr, "autoyield: %d scheduling points inserted in %d files\n", total, len(overlay))
+	fmt.Fprintf(os.Stderr, "autoyield: %d scheduling points inserted, %d sync.Pool made simulated, %d files\n", total-pools, pools, len(overlay))
 }
 
 // exprsOnly: the statement is nothing but a vhook call (or an if around one)
